@@ -43,6 +43,7 @@ type Evidence struct {
 	SelftestPairs      int
 	SelftestMismatches int
 	CrossJobs          int
+	PositiveReplays    int
 }
 
 type groupEv struct {
@@ -169,34 +170,35 @@ func (ev *Evidence) write(wall float64, violations int) {
 		"violations":  violations,
 		"assumptions": assumptions,
 		"coverage": map[string]interface{}{
-			"states":                        states,
-			"transitions":                   ev.Decisions,
-			"traces_validated_against_impl": ev.Replays + ev.SelftestPairs,
-			"selftest":                      map[string]int{"pairs_compared_native_vs_gosym": ev.SelftestPairs, "mismatches": ev.SelftestMismatches},
-			"native_replays":                ev.Replays,
-			"solver_cross_check":            map[string]interface{}{"jobs_re_explored_with_other_solvers": ev.CrossJobs, "solvers": "z3 5.1.0 (quick, thorough), cvc5 1.0 (thorough)", "rule": "per group the largest completed jobs under a path limit are explored again; paths per outcome must be identical, any difference makes the run inconclusive"},
-			"samples":                       samples,
-			"exhaustive":                    len(ev.Inconclusive) == 0 && len(ev.Incomplete) == 0,
-			"rule":                          "states = feasible paths (input equivalence classes) of the harness over the real SSA of /repo, every symbolic branch decided by an SMT query; transitions = symbolic branch decisions taken; each job is one concrete program shape, inside a job nothing is sampled",
-			"jobs":                          ev.Jobs,
-			"path_outcomes":                 ev.Counts,
-			"reach_markers":                 ev.Reach,
-			"ssa_steps_total":               ev.Steps,
-			"ssa_steps_max_path":            ev.MaxSteps,
-			"queries":                       map[string]interface{}{"total": ev.Queries, "sat": ev.Sat, "unsat": ev.Unsat, "unknown": ev.UnknownQ, "errors": ev.SolverErrors},
-			"solver_time_s":                 ev.SolverS,
-			"solver_max_query_s":            ev.MaxQueryS,
-			"load_and_ssa_build_s":          ev.LoadS,
-			"functions_encoded":             repoFuncs,
-			"stdlib_functions_encoded":      stdFuncs,
-			"stubs_called":                  ev.Stubs,
-			"groups":                        ev.Groups,
-			"inconclusive":                  ev.Inconclusive,
-			"incomplete":                    ev.Incomplete,
-			"known_findings_hit":            ev.KnownHits,
-			"panics_not_in_scope":           ev.PanicsIgnored,
-			"repo_global_writes":            ev.GlobalW,
-			"violations_found":              ev.Violations,
+			"states":                          states,
+			"transitions":                     ev.Decisions,
+			"traces_validated_against_impl":   ev.Replays + ev.SelftestPairs + ev.PositiveReplays,
+			"selftest":                        map[string]int{"pairs_compared_native_vs_gosym": ev.SelftestPairs, "mismatches": ev.SelftestMismatches},
+			"native_replays":                  ev.Replays,
+			"native_replays_of_passing_paths": ev.PositiveReplays,
+			"solver_cross_check":              map[string]interface{}{"jobs_re_explored_with_other_solvers": ev.CrossJobs, "solvers": "z3 5.1.0 (quick, thorough), cvc5 1.0 (thorough)", "rule": "per group the largest completed jobs under a path limit are explored again; paths per outcome must be identical, any difference makes the run inconclusive"},
+			"samples":                         samples,
+			"exhaustive":                      len(ev.Inconclusive) == 0 && len(ev.Incomplete) == 0,
+			"rule":                            "states = feasible paths (input equivalence classes) of the harness over the real SSA of /repo, every symbolic branch decided by an SMT query; transitions = symbolic branch decisions taken; each job is one concrete program shape, inside a job nothing is sampled",
+			"jobs":                            ev.Jobs,
+			"path_outcomes":                   ev.Counts,
+			"reach_markers":                   ev.Reach,
+			"ssa_steps_total":                 ev.Steps,
+			"ssa_steps_max_path":              ev.MaxSteps,
+			"queries":                         map[string]interface{}{"total": ev.Queries, "sat": ev.Sat, "unsat": ev.Unsat, "unknown": ev.UnknownQ, "errors": ev.SolverErrors},
+			"solver_time_s":                   ev.SolverS,
+			"solver_max_query_s":              ev.MaxQueryS,
+			"load_and_ssa_build_s":            ev.LoadS,
+			"functions_encoded":               repoFuncs,
+			"stdlib_functions_encoded":        stdFuncs,
+			"stubs_called":                    ev.Stubs,
+			"groups":                          ev.Groups,
+			"inconclusive":                    ev.Inconclusive,
+			"incomplete":                      ev.Incomplete,
+			"known_findings_hit":              ev.KnownHits,
+			"panics_not_in_scope":             ev.PanicsIgnored,
+			"repo_global_writes":              ev.GlobalW,
+			"violations_found":                ev.Violations,
 		},
 	}
 	if spec != nil && spec.Rule != "" {
